@@ -51,12 +51,47 @@ theorem final_truthful_done {fl : Flags} (hg : fl.readyGuarded = true) {totals :
   jlocal_done_iff ((reachable_invA hg h).loc j) hp
 
 /-- "truthful", ERROR: a job ends ERROR iff it had no marker and either its process exited with a non-zero code, or
-    it was never launched and a dependency failed (`failedDep`).  Needs `readyGuarded`. -/
+    a dependency failed (`failedDep`) — and in the latter case it was never launched
+    (`failed_dependency_never_launched`).  Needs `readyGuarded`. -/
 theorem final_truthful_error {fl : Flags} (hg : fl.readyGuarded = true) {totals : List Nat} {s : St}
     (h : Reachable fl totals s) (j : Nat) (r : JS) (hp : (s.jobs j).pc = .finished r) :
     r = .error ↔ ((s.jobs j).marker = false ∧
-      (((s.jobs j).launches = 1 ∧ (s.jobs j).code ≠ 0) ∨ ((s.jobs j).launches = 0 ∧ (s.jobs j).failedDep = true))) :=
-  jlocal_error_iff ((reachable_invA hg h).loc j) hp
+      (((s.jobs j).launches = 1 ∧ (s.jobs j).code ≠ 0) ∨ (s.jobs j).failedDep = true)) := by
+  rw [jlocal_error_iff ((reachable_invA hg h).loc j) hp]
+  have hfl := ((reachable_invC hg h).d.recs j).failedNoLaunch
+  constructor
+  · rintro ⟨hm, hx | ⟨_, hf⟩⟩
+    · exact ⟨hm, Or.inl hx⟩
+    · exact ⟨hm, Or.inr hf⟩
+  · rintro ⟨hm, hx | hf⟩
+    · exact ⟨hm, Or.inl hx⟩
+    · exact ⟨hm, Or.inr ⟨hfl hf, hf⟩⟩
+
+/-- "truthful", dependency failure: a job that saw a dependency fail is never launched, at any time (not only once
+    final).  Needs `readyGuarded`. -/
+theorem failed_dependency_never_launched {fl : Flags} (hg : fl.readyGuarded = true) {totals : List Nat} {s : St}
+    (h : Reachable fl totals s) (j : Nat) (hf : (s.jobs j).failedDep = true) : (s.jobs j).launches = 0 :=
+  ((reachable_invC hg h).d.recs j).failedNoLaunch hf
+
+/-- `failedDep` is truthful: it is set only if some job dependency is recorded as failed, and a dependency is
+    recorded as failed (resp. OK) only if its origin job shows ERROR (resp. DONE).  Needs `readyGuarded`. -/
+theorem failedDep_truthful {fl : Flags} (hg : fl.readyGuarded = true) {totals : List Nat} {s : St}
+    (h : Reachable fl totals s) (j : Nat) (hf : (s.jobs j).failedDep = true) :
+    ∃ i o, i < (s.jobs j).deps.length ∧ (depAt (s.jobs j) i).origin = .job o ∧ o < j ∧
+      (depAt (s.jobs j) i).cur = .fail ∧ (s.jobs o).state = .error := by
+  have hC := reachable_invC hg h
+  obtain ⟨i, hi, hc⟩ := (hC.d.recs j).failedWit hf
+  cases hj : isJobO (depAt (s.jobs j) i).origin
+  · exact absurd hc ((hC.d.recs j).tokNoFail i hi hj)
+  · obtain ⟨o, ho⟩ := isJobO_job hj
+    exact ⟨i, o, hi, ho, hC.st.acyclic j i o hi ho, hc, (hC.d.truth j i o hi ho).2 hc⟩
+
+/-- invariant A (`counter_sound`): for a job whose coroutine has started, `unsatisfied` is the number of dependencies
+    whose recorded status is not OK.  Needs `readyGuarded`. -/
+theorem counter_sound {fl : Flags} (hg : fl.readyGuarded = true) {totals : List Nat} {s : St}
+    (h : Reachable fl totals s) (j : Nat) (hs : (s.jobs j).state ≠ .unscheduled) :
+    (s.jobs j).unsat = cntBad (s.jobs j).deps :=
+  ((reachable_invC hg h).d.recs j).counter hs
 
 /-- a job whose success marker existed is never launched.  Needs `readyGuarded`. -/
 theorem marker_never_launched {fl : Flags} (hg : fl.readyGuarded = true) {totals : List Nat} {s : St}
